@@ -1,5 +1,5 @@
 (* C18 - Protocol identifier tables are exact: every listed name/number, nothing else. *)
-From Ctap Require Import Base Schema Wire Typed Procs Inst Tables ProcTables Finite FramingP C18P.
+From Ctap Require Import Base Schema Wire Typed Procs Inst Tables ProcTables Finite FramingP C18P ObEnums ObByteTables.
 Local Open Scope string_scope.
 Local Open Scope Z_scope.
 
